@@ -5,8 +5,6 @@ HERE = os.path.dirname(os.path.abspath(__file__))
 
 NA = {
  "C01": "Decryption error <= configured bound and exact plaintext position are magnitudes of run-time integers under all radices/precisions; no shape-level necessary condition beyond what C06 (noise/mask call discipline) already decides. Static analysis does not apply.",
- "C03": "Key-switch/automorphism/trace/packing correctness is 'decrypts to the expected image within a noise bound': gadget arithmetic and Galois exponent arithmetic over run-time values; no sound static argument in reach.",
- "C04": "External product / CMux selects m1*m2 within noise: polynomial arithmetic and noise magnitudes, run-time numeric facts.",
  "C14": "Blind rotation returns the table entry at the mod-switched index: index/drift/sign arithmetic and homomorphic noise.",
 }
 
@@ -57,6 +55,16 @@ CLAIMS = {
          "DESIGN.md §3 C02 and C09, §8",
          "Trusted: per-limb kernels compute the ring map.",
          "shared limb-coverage / column analysis restricted to the C09 files + sibling verdict comparison", True),
+ "C03": ("other",
+         "Only structural clauses of C03 are decided: the digit loop of the gadget product of the key-switching family (gglwe_product_dft) selects the operand limbs with step == dsize and an offset that, added to the limb offset at which the digit's product is accumulated, gives dsize - 1 on every path of the loop body (KS-1, path-wise piecewise-linear identity over expressions extracted from MIR); the Galois-element helpers compute in (Z/2NZ)* with the cyclotomic order only (SIGN-3); vmp kernels with a limb offset zero-fill what they do not write (WR-4). The zeroing of multi-digit accumulators and the scratch declarations of the family are decided under C12. Noise, the gadget arithmetic, trace / packing / sample extraction are not decided.",
+         "DESIGN.md §8 (C03)",
+         "Trusted: vec_znx_dft_copy / vec_znx_dft_apply select limbs offset, offset + step, ...; vmp accumulates at limb_offset. Thin, clause-scoped claim.",
+         "path-wise piecewise-linear identity over the digit loop + shared structural rules", True),
+ "C04": ("other",
+         "Only structural clauses of C04 are decided: the digit loop of the external product (glwe_external_product_internal) satisfies step == dsize and offset + limb_offset == dsize - 1 on every path (KS-1); each CMux form (cmux, cmux_assign, cmux_assign_neg) computes (x - y) * s + y with the operand added back after the product being the subtrahend of the difference that was multiplied (CMUX-1), so that - given the external product - a selector bit returns exactly one of the two inputs; vmp kernels with a limb offset zero-fill what they do not write (WR-4). m1 * m2 within noise, GGSW row expansion and radix mismatches are not decided.",
+         "DESIGN.md §8 (C04)",
+         "Trusted: the external product multiplies by the GGSW plaintext. Thin, clause-scoped claim.",
+         "path-wise piecewise-linear identity over the digit loop + operand-role matching of the CMux forms", True),
  "C05": ("other",
          "Only the split of the convolution offset is decided: each of the seven convolution-based products of poulpy-core (glwe_mul_const[_assign], glwe_mul_plain[_assign], glwe_tensor_apply, glwe_tensor_apply_add_assign, glwe_tensor_square_apply) derives a limb offset `hi` and an intra-limb offset `lo` from `cnv_offset`, hands `hi` to every convolution kernel call and `lo` to every big normalisation of the function, and hi * base2k + lo + base2k == cnv_offset holds on every path for every offset and radix - a piecewise-linear identity decided on the expressions extracted from MIR (path-specific definitions, the path's comparisons as side conditions); squaring, multiplying and the accumulating form derive the split from the same expressions (CNV-2). The CKKS callers' choice of cnv_offset is decided under C16 (CK-9). Convolution kernels, partial-limb masks, relinearisation and noise are not decided.",
          "DESIGN.md §8 (C05)",
